@@ -470,7 +470,7 @@ def plan(tier):
       Enum("locks", lambda: _enum_locks("quick"), shards=4),
       Enum("polls", lambda: _enum_polls("quick"), shards=8),
       Enum("timers-deferred", lambda: _enum_deferred("quick"), shards=4),
-      Hyp("programs", lambda: _strategy("quick"), examples=4000, shards=16),
+      Hyp("programs", lambda: _strategy("quick"), examples=3200, shards=16),
       Enum("threaded-grid", lambda: _enum_threaded("quick"), shards=8),
       Enum("threaded-preempt", lambda: _enum_preempt("quick"), shards=8),
       Hyp("threaded-programs", lambda: _strategy("quick", "threaded"), examples=800, shards=8),
